@@ -7,6 +7,7 @@ kernel computes do not change what the rules see:
   N2  while -> for                              (last statement of the body steps one scalar, no `continue`)
   N3  calls of helper functions are inlined     (non-recursive helpers that are not shim entry points; early
                                                 returns are turned into if/else with a result variable)
+  N3b `if (.. h(args) ..)` with a side-effect-free helper h and pure arguments -> `T v = h(args); if (.. v ..)`
   N4  scalar temporaries are forward-substituted (`t = e` with pure e replaces later reads of t while neither t
                                                 nor an operand of e is assigned; pointer temporaries `p = &A[e]`
                                                 likewise; dead pure definitions are dropped)
